@@ -39,6 +39,7 @@ CONSTANTS
   NV = %(nv)d
   NodeCap = %(nodecap)d
   PairK = %(pairk)d
+  SeqDepth = %(seqdepth)d
   MaxMut = %(maxmut)d
   GenMode = "print"
 %(invs)s
@@ -48,7 +49,8 @@ CHECK_DEADLOCK FALSE
 
 INV_ITEMS = "INVARIANT EncIsCanonical\nINVARIANT DecEncIdentity"
 INV_BYTES = "INVARIANT CanonicalIsEnc\nINVARIANT DecEncIdentity"
-INV_TYPED = "INVARIANT TypedSelfCheck\nCONSTRAINT DesignCex"
+INV_TYPED = "INVARIANT TypedSelfCheck\nINVARIANT EncCSound\nCONSTRAINT DesignCex"
+INV_SEQ = "INVARIANT SeqSound"
 INV_BIG = "INVARIANT BigSound"
 
 DUMMY_SEED = '{"ty":"Hash","k":0,"b":[128],"nodes":[1]}\n'
@@ -116,9 +118,9 @@ def specials():
 def params(ctx):
     if ctx.quick:
         return dict(items_large=False, nv=3, nodecap=8, seeds_k=3, seed_nodes=8, rnd=10, items_sample=4000, pairk=1,
-                    big_sizes=[65536, 262148])
+                    big_sizes=[65536, 262148], seqdepth=3, enc_k=1)
     return dict(items_large=True, nv=7, nodecap=1000, seeds_k=10, seed_nodes=30, rnd=40, items_sample=150000, pairk=4,
-                big_sizes=[65536, 262148, 1048576])
+                big_sizes=[65536, 262148, 1048576], seqdepth=4, enc_k=3)
 
 
 def printed_cases(res):
@@ -140,9 +142,9 @@ def generate(ctx):
     nw = len(behs)
     seedfile = {"seeds.ndjson": DUMMY_SEED}
     # M/G: the specification against itself, small scopes
-    mi = ctx.tlc_must("Rlp", CFG % dict(dev=DEVIATIONS, scope="items", large="TRUE" if p["items_large"] else "FALSE", nv=1, nodecap=1, pairk=0, maxmut=0, invs=INV_ITEMS),
+    mi = ctx.tlc_must("Rlp", CFG % dict(dev=DEVIATIONS, scope="items", large="TRUE" if p["items_large"] else "FALSE", nv=1, nodecap=1, pairk=0, seqdepth=0, maxmut=0, invs=INV_ITEMS),
                       name="M_items", files=seedfile, timeout=3000, xss="512m")
-    mb = ctx.tlc_must("Rlp", CFG % dict(dev=DEVIATIONS, scope="bytes", large="TRUE", nv=1, nodecap=1, pairk=0, maxmut=0, invs=INV_BYTES),
+    mb = ctx.tlc_must("Rlp", CFG % dict(dev=DEVIATIONS, scope="bytes", large="TRUE", nv=1, nodecap=1, pairk=0, seqdepth=0, maxmut=0, invs=INV_BYTES),
                       name="M_bytes", files=seedfile, timeout=1500, xss="512m")
     for m in (mi, mb):
         if m.violated:
@@ -153,7 +155,7 @@ def generate(ctx):
         random.Random(ctx.seed).shuffle(items)
         items = items[:p["items_sample"]]
     # M/G: large inputs as descriptors; the verdict-by-descriptor rule is checked against the parser for cnt <= 3
-    mg = ctx.tlc_must("Rlp", CFG % dict(dev=DEVIATIONS, scope="big", large="FALSE", nv=1, nodecap=1, pairk=0, maxmut=0, invs=INV_BIG),
+    mg = ctx.tlc_must("Rlp", CFG % dict(dev=DEVIATIONS, scope="big", large="FALSE", nv=1, nodecap=1, pairk=0, seqdepth=0, maxmut=0, invs=INV_BIG),
                       name="M_big", files=seedfile, timeout=1500, xss="512m")
     if mg.violated:
         raise vlib.Undecided("specification self-check failed (%s in %s)" % (mg.violated, mg.dir))
@@ -172,6 +174,14 @@ def generate(ctx):
     ctx.cov["large_inputs"] = {"descriptors_checked_small": len(small), "expanded_by_driver": sum(len(v) for v in bigs.values()),
                                "sizes": p["big_sizes"], "types": len(bigs)}
     bigbehs = [{"ty": ty, "gen": None, "rnd": 0, "cases": [], "big": bigs[ty]} for ty in sorted(bigs)]
+    # M/G: stateful sequences on the mutable containers
+    ms = ctx.tlc_must("Rlp", CFG % dict(dev=DEVIATIONS, scope="seq", large="FALSE", nv=1, nodecap=1, pairk=0, seqdepth=p["seqdepth"], maxmut=0,
+                                        invs=INV_SEQ), name="M_seq", files=seedfile, timeout=1500, xss="512m")
+    if ms.violated:
+        raise vlib.Undecided("specification self-check failed (%s in %s)" % (ms.violated, ms.dir))
+    seqs = [v for v in ms.printed if isinstance(v, dict) and v.get("kind") == "Q"]
+    seqbehs = [{"ty": v["ty"], "gen": None, "rnd": 0, "cases": [], "seq": {"ty": v["ty"], "init": v["init"], "ops": v["ops"]}} for v in seqs]
+    ctx.cov["stateful_sequences"] = {"sequences": len(seqs), "depth": p["seqdepth"], "types": sorted({v["ty"] for v in seqs})}
     sp = specials()
     ctx.cov["generic_cases"] = {"byte_strings": len(generic), "items": len(items), "items_enumerated": mi.distinct, "large_inputs": len(sp)}
     generic = sp + generic + items
@@ -183,11 +193,11 @@ def generate(ctx):
         raise vlib.Undecided("the driver produced no seeds")
     seedtext = "".join(json.dumps({"ty": s["ty"], "k": s["k"], "b": s["b"], "nodes": s["nodes"]}, separators=(",", ":")) + "\n" for s in seeds)
     # M/G: schemas, samples, mutations (typed samples and real seeds)
-    mt = ctx.tlc_must("Rlp", CFG % dict(dev=DEVIATIONS, scope="all", large="FALSE", nv=p["nv"], nodecap=p["nodecap"], pairk=p["pairk"], maxmut=1, invs=INV_TYPED),
+    mt = ctx.tlc_must("Rlp", CFG % dict(dev=DEVIATIONS, scope="all", large="FALSE", nv=p["nv"], nodecap=p["nodecap"], pairk=p["pairk"], seqdepth=0, maxmut=1, invs=INV_TYPED),
                       name="MG_typed", files={"seeds.ndjson": seedtext}, timeout=3000, xss="512m", coverage=not ctx.quick)
     if mt.violated:
         raise vlib.Undecided("specification self-check failed (%s in %s)" % (mt.violated, mt.dir))
-    ctx.cov["exhaustive"] = mi.ok and mb.ok and mt.ok and mg.ok
+    ctx.cov["exhaustive"] = mi.ok and mb.ok and mt.ok and mg.ok and ms.ok
     if getattr(mt, "zero_actions", None):
         ctx.cov["coverage_zero_actions"] = mt.zero_actions
     # design-level counterexamples: replayed first
@@ -204,11 +214,16 @@ def generate(ctx):
         behs.append({"ty": ty, "gen": None, "rnd": 0, "cases": bycex[ty]})
     ncex = len(behs) - nw
     ctx.cov["design_counterexamples"] = {"cases": len(cexkeys), "classes": sorted({"+".join(sorted(v["disc"])) for v in cex})}
-    behs += bigbehs
+    behs += bigbehs + seqbehs
+    # the encode side at the header-class boundaries: real objects 0..enc_k-1 of every type, one byte field of each length
+    encbehs = [{"ty": ty, "gen": None, "seed": ctx.seed, "rnd": 0, "cases": [],
+                "enc": [{"ty": ty, "k": k, "ls": [55, 56, 255, 256, 65535, 65536, 1048576]} for k in range(p["enc_k"])]}
+               for ty in sorted({s["ty"] for s in seeds})]
+    behs += encbehs
     # generic batches
     for i in range(0, len(generic), GENERIC_BATCH):
         behs.append({"ty": "generic", "gen": None, "rnd": 0, "cases": [{"b": b, "mut": "", "cex": False} for b in generic[i:i + GENERIC_BATCH]]})
-    ngen = len(behs) - nw - ncex - len(bigbehs)
+    ngen = len(behs) - nw - ncex - len(bigbehs) - len(seqbehs) - len(encbehs)
     # typed groups: one behaviour per sample / real object
     groups = {}
     for v in printed_cases(mt):
@@ -223,8 +238,8 @@ def generate(ctx):
                 raise vlib.Undecided("seed numbering out of step")
             gen = {"k": s["k"]}
         behs.append({"ty": ty, "gen": gen, "seed": ctx.seed, "rnd": p["rnd"] if gen else 0, "cases": groups[(ty, sid)]})
-    ctx.note("behaviours: %d witnesses, %d design counterexample groups (%d cases), %d large-input groups (%d descriptors), %d generic batches (%d cases), %d typed groups (%d cases, %d real objects)" % (
-        nw, ncex, len(cexkeys), len(bigbehs), sum(len(b["big"]) for b in bigbehs), ngen, len(generic), len(groups), sum(len(g) for g in groups.values()), len(seeds)))
+    ctx.note("behaviours: %d witnesses, %d design counterexample groups (%d cases), %d large-input groups (%d descriptors), %d stateful sequences, %d encode-boundary groups, %d generic batches (%d cases), %d typed groups (%d cases, %d real objects)" % (
+        nw, ncex, len(cexkeys), len(bigbehs), sum(len(b["big"]) for b in bigbehs), len(seqbehs), len(encbehs), ngen, len(generic), len(groups), sum(len(g) for g in groups.values()), len(seeds)))
     ctx.cov["types"] = len({b["ty"] for b in behs if b["ty"] != "generic"})
     ops = {}
     for b in behs:
@@ -242,7 +257,8 @@ def judge(ctx, behs, selftest_too=False):
     vlib.write_ndjson(bpath, behs)
     trace = ctx.path("trace.ndjson")
     info = ctx.drive("rlp", trace, behaviours=bpath, timeout=1800, max_restarts=2000)
-    ncases = sum(len(b["cases"]) + b.get("rnd", 0) + len(b.get("big", [])) for b in behs)
+    ncases = sum(len(b["cases"]) + b.get("rnd", 0) + len(b.get("big", [])) + (len(b["seq"]["ops"]) if b.get("seq") else 0)
+                 + sum(len(x["ls"]) for x in b.get("enc", [])) for b in behs)
     ctx.cov["traces_validated_against_impl"] += len(behs)
     ctx.cov["evaluations"] += ncases
     ctx.cov["distinct_nontrivial"] += len({(b["ty"], json.dumps(k["b"])) for b in behs for k in b["cases"] if k["mut"] or b["ty"] == "generic"})
